@@ -324,6 +324,10 @@ pub trait Caps: H {
     fn try_serde(&self) -> Option<Self> {
         None
     }
+    /// the complete serialised form as a name-free tree (harness/src/state.rs)
+    fn try_state(&self) -> Option<U> {
+        None
+    }
     /// compare item `i` of `self` with item `j` of `other` in the given representations:
     /// [eq, partial_cmp, cmp] as a wire value, None when the read item is not comparable
     fn try_cmp(&self, _i: Self::Index, _a_owned: bool, _other: &Self, _j: Self::Index, _b_owned: bool) -> Option<U> {
@@ -662,12 +666,17 @@ pub fn run_entry<R: Caps>(ops: &[Op]) -> Vec<Vec<Obs>> {
                 slots[*k].push_allocs = 0;
                 vec![Obs::Val(U::nat(c))]
             }
-            Op::Serde(k) => match caught(|| slots[*k].r.try_serde()) {
-                Some(Some(r)) => {
+            Op::Serde(k) => match caught(|| (slots[*k].r.try_state(), slots[*k].r.try_serde())) {
+                Some((before, Some(r))) => {
+                    // the serialised state before the round trip and that of the deserialised value
+                    let after = r.try_state();
                     slots[*k].r = r;
-                    vec![Obs::None]
+                    match (before, after) {
+                        (Some(a), Some(b)) => vec![Obs::Val(U::L(vec![a, b]))],
+                        _ => vec![Obs::None],
+                    }
                 }
-                Some(None) => {
+                Some((_, None)) => {
                     stop = true;
                     vec![Obs::Unsupported]
                 }
